@@ -25,6 +25,13 @@ ForUs(filters, c) == \/ AbiTag(c) \in filters
                      \/ c.dist \in filters
                      \/ FamilyOf(c.dist) \in filters
 
+\* The configure step of the prepare stage (pkg/prebuild/prepare/configure.go): the abstractions of
+\* dists/ubuntu are copied for targets older than the release that ships them (Ubuntu: AppArmor 3.0,
+\* Debian and Whonix: AppArmor 4.1); the files upstreamed in AppArmor 4.1 are removed for 4.1 targets.
+VerNum(v) == CASE v = "3.0" -> 30 [] v = "4.0" -> 40 [] OTHER -> 41
+CopiesUbuntuDir(d, v) == (d = "ubuntu" /\ VerNum(v) < 30) \/ (d \in {"debian", "whonix"} /\ VerNum(v) < 41)
+DropsUpstreamed(v)    == VerNum(v) >= 41
+
 \* Exec transition modes (pkg/aa requirements[FILE]["transition"]).
 ExecModes == {"ix", "ux", "Ux", "px", "Px", "cx", "Cx", "pix", "Pix", "cix", "Cix",
               "pux", "PUx", "cux", "CUx", "x"}
